@@ -648,7 +648,7 @@ func (g *fgen) filter(d bson.D, depth int) bson.D {
 	for i := 0; i < n; i++ {
 		switch {
 		case depth > 0 && r.chance(1, 4):
-			op := pick(r, []string{"$and", "$or", "$nor", "$and", "$or", "$nor", "$jsonSchema"})
+			op := pick(r, []string{"$and", "$or", "$nor", "$and", "$or", "$nor", "$jsonSchema", "$jsonSchema"})
 			if op == "$jsonSchema" {
 				if g.bad() {
 					f = append(f, bson.E{Key: op, Value: pick(r, []interface{}{nil, int32(1), bson.A{}, "a"})})
@@ -685,6 +685,30 @@ func (g *fgen) filter(d bson.D, depth int) bson.D {
 var jsonTypes = []string{"null", "boolean", "number", "string", "object", "array"}
 var bsonAliases = []string{"double", "string", "object", "array", "binData", "objectId", "bool", "date", "null", "regex", "int", "timestamp", "long", "decimal", "number", "minKey", "undefined"}
 
+// a bound near the actual length(s) of v
+func lenBound(r *rng, v interface{}) interface{} {
+	var ns []int64
+	switch x := v.(type) {
+	case string:
+		ns = []int64{int64(len(x)), int64(len([]rune(x)))}
+	case bson.A:
+		ns = []int64{int64(len(x))}
+	case bson.D:
+		ns = []int64{int64(len(x))}
+	}
+	if len(ns) == 0 || r.chance(1, 4) {
+		return smallInt(r)
+	}
+	n := pick(r, ns) + int64(r.intn(3)) - 1
+	if n < 0 {
+		n = 0
+	}
+	if r.chance(1, 2) {
+		return int32(n)
+	}
+	return n
+}
+
 func smallInt(r *rng) interface{} {
 	n := int64(r.intn(5))
 	if r.chance(1, 2) {
@@ -696,12 +720,23 @@ func smallInt(r *rng) interface{} {
 func (g *fgen) schema(v interface{}, depth int) bson.D {
 	r := g.r
 	s := bson.D{}
-	n := 1 + r.intn(3)
+	n := 1 + r.intn(4)
 	if r.chance(1, 12) {
 		n = 0
 	}
+	if dd, ok := v.(bson.D); ok && len(dd) > 0 && depth > 0 && r.chance(1, 2) {
+		// the common validator shape: a schema for a real member
+		e := pick(r, dd)
+		s = append(s, bson.E{Key: "properties", Value: bson.D{{Key: e.Key, Value: g.schema(e.Value, depth-1)}}})
+	}
+	if arr, ok := v.(bson.A); ok && len(arr) > 0 && depth > 0 && r.chance(1, 3) {
+		s = append(s, bson.E{Key: "items", Value: g.schema(pick(r, arr), depth-1)})
+	}
 	for i := 0; i < n; i++ {
 		kw := r.intn(28)
+		if r.chance(1, 4) {
+			kw = r.intn(7) // the generic keywords: type, bsonType, enum, allOf, anyOf, oneOf, not
+		}
 		if depth <= 0 && kw >= 3 && kw <= 6 {
 			kw = 0
 		}
@@ -815,7 +850,7 @@ func (g *fgen) schema(v interface{}, depth int) bson.D {
 			if bad {
 				s = append(s, bson.E{Key: name, Value: pick(r, []interface{}{int32(-1), 1.0, "a", nil, int64(-2)})})
 			} else {
-				s = append(s, bson.E{Key: name, Value: smallInt(r)})
+				s = append(s, bson.E{Key: name, Value: lenBound(r, v)})
 			}
 		case 14:
 			if bad {
@@ -837,7 +872,7 @@ func (g *fgen) schema(v interface{}, depth int) bson.D {
 			if bad {
 				s = append(s, bson.E{Key: name, Value: pick(r, []interface{}{int32(-1), 1.0, "a", nil})})
 			} else {
-				s = append(s, bson.E{Key: name, Value: smallInt(r)})
+				s = append(s, bson.E{Key: name, Value: lenBound(r, v)})
 			}
 		case 17:
 			if bad {
@@ -893,7 +928,7 @@ func (g *fgen) schema(v interface{}, depth int) bson.D {
 			if bad {
 				s = append(s, bson.E{Key: name, Value: pick(r, []interface{}{int32(-1), 1.0, "a", nil})})
 			} else {
-				s = append(s, bson.E{Key: name, Value: smallInt(r)})
+				s = append(s, bson.E{Key: name, Value: lenBound(r, v)})
 			}
 		case 22:
 			if bad {
@@ -1040,9 +1075,16 @@ func genMatchDoc(r *rng) bson.D {
 		arr := bson.A{}
 		if r.chance(1, 2) {
 			k1, k2 := pick(r, poolKeys), pick(r, poolKeys)
+			arrays := r.chance(1, 3)
 			for i := 0; i < n; i++ {
 				sub := bson.D{}
-				if r.chance(4, 5) {
+				if arrays && r.chance(4, 5) {
+					inner := bson.A{}
+					for j := r.intn(3); j > 0; j-- {
+						inner = append(inner, pick(r, []interface{}{int32(1), int32(2), int64(2), 3.0, "a", nil, bson.A{int32(1)}}))
+					}
+					sub = append(sub, bson.E{Key: k1, Value: inner})
+				} else if r.chance(4, 5) {
 					sub = append(sub, bson.E{Key: k1, Value: genValue(r, 1)})
 				}
 				if k2 != k1 && r.chance(1, 2) {
